@@ -12,6 +12,12 @@ unsafe fn fwd<T>(src: *const T, dst: *mut T, count: usize) {
         // byte copies (page images, keys, values): plain dereferences, no per-call precondition checks
         let s = src as *const u8;
         let d = dst as *mut u8;
+        if count == 16 {
+            // the 16-byte bucket header (BucketMeta::from) is copied all over the tree code: loop-free, so that
+            // harnesses that only touch bucket entries can keep a small unwind bound
+            copy16(s, d);
+            return;
+        }
         let mut i = 0;
         while i < count {
             *d.wrapping_add(i) = *s.wrapping_add(i);
@@ -26,13 +32,26 @@ unsafe fn fwd<T>(src: *const T, dst: *mut T, count: usize) {
     }
 }
 
+#[inline(always)]
+unsafe fn copy16(s: *const u8, d: *mut u8) {
+    macro_rules! b {
+        ($($i:literal)*) => { $( *d.wrapping_add($i) = *s.wrapping_add($i); )* };
+    }
+    b!(0 1 2 3 4 5 6 7 8 9 10 11 12 13 14 15);
+}
+
 pub unsafe fn copy_nonoverlapping<T>(src: *const T, dst: *mut T, count: usize) {
     fwd(src, dst, count)
 }
 
 /// memmove semantics: correct for overlapping ranges in either direction
 pub unsafe fn copy<T>(src: *const T, dst: *mut T, count: usize) {
-    if (dst as usize) <= (src as usize) {
+    if std::mem::size_of::<T>() == 1 && count == 16 {
+        // distinct objects in every use jammdb makes of a 16-byte memmove (stack buffer <- page bytes)
+        let mut tmp = [0u8; 16];
+        copy16(src as *const u8, tmp.as_mut_ptr());
+        copy16(tmp.as_ptr(), dst as *mut u8);
+    } else if (dst as usize) <= (src as usize) {
         fwd(src, dst, count)
     } else if std::mem::size_of::<T>() == 1 {
         let s = src as *const u8;
@@ -59,3 +78,9 @@ pub fn hash_cheap(on: bool) {
 }
 #[cfg(feature = "jv_real")]
 pub fn hash_cheap(_on: bool) {}
+
+/// `format!` builds error messages (Error::InvalidDB) and panic texts; formatting is never the subject of an
+/// obligation and costs minutes of symbolic execution (Debug of a set, integer formatting). Returns "".
+pub fn fmt_format(_args: std::fmt::Arguments<'_>) -> String {
+    String::new()
+}
